@@ -276,7 +276,7 @@ def observe(case, fresh=False):
         with warnings.catch_warnings():
             warnings.simplefilter('ignore')
             fd, fm = L.build_data(sc), L.build_models(sc)
-            loose = loose or sc['routine'] == 'testset'
+            # (bootstrap_testset* used to re-create `index` in the caller's object; repaired, so no exemption)
             o['changed'] = snap_diff(snapshot(data, models, th, loose),
                                      snapshot(fd, fm, L.thetas(sc, fm), loose))
         o['state'] = state_bits(data, models)
